@@ -609,7 +609,7 @@ impl<'a, F: Float, K: 'a + Permutable<F>> SolverState<'a, F, K> {
             if self.targets[i] {
                 self.gradient[i] > gmax2
             } else {
-                -self.gradient[i] > gmax1
+                self.gradient[i] > gmax1
             }
         } else {
             false
